@@ -332,7 +332,7 @@ func promotedFromNil(r reflect.Value, name string, depth int) bool {
 		}
 		r = r.Elem()
 	}
-	if r.Kind() != reflect.Struct || depth > 64 {
+	if r.Kind() != reflect.Struct || depth > 24 {
 		return false
 	}
 	for i := 0; i < r.NumField(); i++ {
